@@ -130,6 +130,22 @@ func mutantsFor(prop string) []Mutant {
 		{"C18", "leading ./ removed with a cutset", []Edit{{"libvore/files/path.go", "\t\tpath = path[1:]\n\t}\n\tsplitPath", "\t\tpath = path[1:]\n\t} else {\n\t\tpath = strings.TrimLeft(path, \"./\")\n\t}\n\tsplitPath"}}},
 		{"C20", "leading ./ removed with a cutset", []Edit{{"libvore/files/path.go", "\t\tpath = path[1:]\n\t}\n\tsplitPath", "\t\tpath = path[1:]\n\t} else {\n\t\tpath = strings.TrimLeft(path, \"./\")\n\t}\n\tsplitPath"}}},
 		{"C20", "single-star fast path without a length test", []Edit{{"libvore/files/path.go", "\tmatchParts := algo.Window(algo.SplitKeep(matches, \"*\"), 2)\n", "\tif strings.Count(matches, \"*\") == 1 {\n\t\tparts := strings.SplitN(matches, \"*\", 2)\n\t\treturn strings.HasPrefix(target, parts[0]) && strings.HasSuffix(target, parts[1])\n\t}\n\tmatchParts := algo.Window(algo.SplitKeep(matches, \"*\"), 2)\n"}}},
+		// third generation: rules added after the third round of seeded changes
+		{"C01", "alternatives saved in written order", []Edit{{sr, "\tfor _, f := range flipped[:len(flipped)-1] {\n\t\tnext_state.JUMP(f)", "\tfor _, f := range i.Branches[1:] {\n\t\tnext_state.JUMP(f)"}}},
+		{"C02", "ValueHashMap.Copy is one level deep", []Edit{{"libvore/engine/values.go", "\t\tresult.Add(k, val.Copy())\n", "\t\tresult.Add(k, val)\n"}}},
+		{"C03", "Reader.Seek positions the contents one byte further", []Edit{{"libvore/files/reader.go", "v.contents.Seek(int64(offset), io.SeekStart)", "v.contents.Seek(int64(offset+1), io.SeekStart)"}}},
+		{"C07", "Reader.Seek positions the contents one byte further", []Edit{{"libvore/files/reader.go", "v.contents.Seek(int64(offset), io.SeekStart)", "v.contents.Seek(int64(offset+1), io.SeekStart)"}}},
+		{"C05", "matchNumber set before the captured variables are copied", []Edit{{sr, "\tenv[\"matchNumber\"] = ProcessValueNumber{next_state.match.MatchNumber}\n", ""}, {sr, "\tenv := make(map[string]ProcessValue)\n\tkeys := current_state.variables.Keys()", "\tenv := make(map[string]ProcessValue)\n\tenv[\"matchNumber\"] = ProcessValueNumber{next_state.match.MatchNumber}\n\tkeys := current_state.variables.Keys()"}}},
+		{"C12", "matchNumber set before the captured variables are copied", []Edit{{sr, "\tenv[\"matchNumber\"] = ProcessValueNumber{next_state.match.MatchNumber}\n", ""}, {sr, "\tenv := make(map[string]ProcessValue)\n\tkeys := current_state.variables.Keys()", "\tenv := make(map[string]ProcessValue)\n\tenv[\"matchNumber\"] = ProcessValueNumber{next_state.match.MatchNumber}\n\tkeys := current_state.variables.Keys()"}}},
+		{"C07", "long file names are skipped without being searched", []Edit{{"libvore/engine/engine.go", "\t\t\t\tfoundMatches := search(&command, actualFilename, reader, actualMode)\n", "\t\t\t\tif len(actualFilename) > 200 {\n\t\t\t\t\treader.Close()\n\t\t\t\t\tcontinue\n\t\t\t\t}\n\t\t\t\tfoundMatches := search(&command, actualFilename, reader, actualMode)\n"}}},
+		{"C08", "HexToAscii reached after one IsHex test", []Edit{{lx, "if len(hex) == 2 && IsHex(rune(hex[0])) && IsHex(rune(hex[1])) {", "if len(hex) == 2 && IsHex(rune(hex[0])) {"}}},
+		{"C08", "checker loop without a bound", []Edit{{sem, "\tinfo.inLoop = wasInLoop\n\treturn info\n", "\tfor info.inLoop {\n\t\tinfo.inLoop = wasInLoop && info.currentType == PTERROR\n\t}\n\tinfo.inLoop = wasInLoop\n\treturn info\n"}}},
+		{"C09", "IsLetter looks at the first byte only", []Edit{{se, "\treturn (\"a\" <= value && value <= \"z\") || (\"A\" <= value && value <= \"Z\") || (\"0\" <= value && value <= \"9\") || value == \"_\"\n", "\tb := value[0]\n\treturn ('a' <= b && b <= 'z') || ('A' <= b && b <= 'Z') || ('0' <= b && b <= '9') || b == '_'\n"}}},
+		{"C13", "definitions generated in a pass of their own", []Edit{{gen, "\tfor _, ast_comm := range a.Commands() {\n\t\tbyte_comm, gen_error := generateCommand(&ast_comm, gen_state)", "\tfor _, ast_comm := range a.Commands() {\n\t\tif _, isSet := ast_comm.(*ast.AstSet); isSet {\n\t\t\tgenerateCommand(&ast_comm, gen_state)\n\t\t}\n\t}\n\tfor _, ast_comm := range a.Commands() {\n\t\tbyte_comm, gen_error := generateCommand(&ast_comm, gen_state)"}}},
+		{"C15", "boolean literal read from the raw spelling", []Edit{{ps, "\t\tlhs = AstProcessBoolean{true}\n", "\t\tlhs = AstProcessBoolean{tokens[index].Lexeme == \"true\"}\n"}}},
+		{"C17", "Range.MarshalJSON moved to the pointer receiver", []Edit{{"libvore/ds/range.go", "func (r Range) MarshalJSON() ([]byte, error) {", "func (r *Range) MarshalJSON() ([]byte, error) {"}}},
+		{"C10", "Stack.Copy returns a view of the same backing array", []Edit{{"libvore/ds/stack.go", "\tresult := NewStack[T]()\n\n\tfor _, value := range s.store {\n\t\tresult.Push(value)\n\t}\n\n\treturn result\n", "\treturn &Stack[T]{store: s.store[:len(s.store)]}\n"}}},
+		{"C13", "Stack.Copy returns a view of the same backing array", []Edit{{"libvore/ds/stack.go", "\tresult := NewStack[T]()\n\n\tfor _, value := range s.store {\n\t\tresult.Push(value)\n\t}\n\n\treturn result\n", "\treturn &Stack[T]{store: s.store[:len(s.store)]}\n"}}},
 	}
 	var out []Mutant
 	for _, m := range all {
